@@ -214,7 +214,21 @@ def extract_regtape(repo, trace):
         rsx.find_fn(src, name, a, b)   # must still exist (otherwise the skip list is stale)
         trace.drop('RegTape::%s (not under contract: HashMap / impl Iterator)' % name)
     trace.drop('impl IntoIterator for &RegTape (not under contract)')
-    text = st + '\n\nimpl RegTape {\n' + '\n\n'.join(fns) + '\n}\n'
+    # R-derive-default: `#[derive(Default)]` expanded into the field-wise impl rustc's derive generates, so that it can
+    # carry a postcondition (Verus gives derived impls no specification); the struct and its fields are made `pub`
+    # because a trait method's contract may only mention public items (visibility has no run-time meaning)
+    if not st.startswith('#[derive(Clone, Default)]\nstruct RegTape {'):
+        raise ExtractError('R-derive-default: RegTape header changed')
+    fields = re.findall(r'^\s+(\w+):\s*([^,\n]+),', st, re.M)
+    if [f for f, _ in fields] != ['tape', 'slot_count']:
+        raise ExtractError('R-derive-default: RegTape fields changed: %s' % fields)
+    st = st.replace('#[derive(Clone, Default)]\nstruct RegTape {', '#[derive(Clone)]\npub struct RegTape {')
+    for f, _ in fields:
+        st = re.sub(r'^(\s+)%s:' % f, r'\1pub %s:' % f, st, flags=re.M)
+    dflt = ('impl Default for RegTape {\n    fn default() -> (r: Self)\n        ensures r.tape@.len() == 0, r.slot_count == 0,\n    {\n        RegTape { '
+            + ', '.join('%s: Default::default()' % f for f, _ in fields) + ' }\n    }\n}\n')
+    trace.fire('R-derive-default')
+    text = st + '\n\n' + dflt + '\nimpl RegTape {\n' + '\n\n'.join(fns) + '\n}\n'
     # R-iter on RegTape::new
     old = '        for &op in ssa.iter() {\n            alloc.op(op)\n        }\n'
     new = ('        let mut k_: usize = 0;\n        while k_ < ssa.tape.len() {\n            let op = ssa.tape[k_];\n'
@@ -321,6 +335,7 @@ def build(repo, trace):
               'op_reg_fn', 'op_out_only', 'op_copy_imm', 'op_input', 'op_output']
     for f in simple:
         O('RegisterAllocator::' + f, 'RegisterAllocator::' + f)
+    O('RegTape::default', 'RegTape::default')
     for f in ['RegTape::new', 'RegTape::empty', 'RegTape::reset', 'RegTape::push', 'RegTape::is_empty', 'RegTape::len', 'RegTape::slot_count',
               'SsaTape::len', 'SsaTape::is_empty', 'SsaTape::reset', 'rev_range_u8_collect', 'rev_range_u8_extend']:
         O(f, f)
